@@ -1,0 +1,35 @@
+//! C31: expose the crate-private grapheme counter used by the password quality check,
+//! the zxcvbn score as an independent oracle, and a password+TOTP credential constructor
+//! (`Credential::append_totp` is crate-private) so that the harness can prepare an account
+//! whose primary credential satisfies an MFA credential policy.
+
+use crate::credential::totp::{Totp, TotpAlgo, TotpDigits};
+use crate::credential::Credential;
+use crate::prelude::*;
+use kanidm_lib_crypto::CryptoPolicy;
+use time::OffsetDateTime;
+
+/// The real `utils::utf8_len` (grapheme clusters, extended).
+pub fn utf8_len(value: &str) -> usize {
+    crate::utils::utf8_len(value)
+}
+
+/// `zxcvbn(password, related).score()` as 0..=4 (the library the server links).
+pub fn zxcvbn_score(password: &str, related: &[&str]) -> u8 {
+    u8::from(zxcvbn::zxcvbn(password, related).score())
+}
+
+/// A primary credential holding `cleartext` and, if `with_totp`, one TOTP token (then `is_mfa()` is true).
+pub fn password_credential(
+    policy: &CryptoPolicy,
+    cleartext: &str,
+    with_totp: bool,
+) -> Result<Credential, OperationError> {
+    let cred = Credential::new_password_only(policy, cleartext, OffsetDateTime::UNIX_EPOCH)?;
+    if with_totp {
+        let totp = Totp::new(vec![0xc3; 32], 30, TotpAlgo::Sha256, TotpDigits::Six);
+        Ok(cred.append_totp("c31".to_string(), totp, OffsetDateTime::UNIX_EPOCH))
+    } else {
+        Ok(cred)
+    }
+}
